@@ -350,6 +350,8 @@ def run(ctx):
         gf = gv.fi
         loops = [n for n in walk_no_nested(gf.node) if isinstance(n, ast.For) and gv.enclosing(n, (ast.For, ast.While)) is None]
         srcs = {n.targets[0].id for n in walk_no_nested(gf.node) if isinstance(n, ast.Assign) and isinstance(n.targets[0], ast.Name) and isinstance(n.value, ast.Call) and norm(n.value.func).endswith("_get_bipartite_representation")}
+        # `df, deg_a = _get_bipartite_representation(hypergraph, return_degrees=True)`: everything the expansion hands back is global
+        srcs |= {e.id for n in walk_no_nested(gf.node) if isinstance(n, ast.Assign) and isinstance(n.targets[0], (ast.Tuple, ast.List)) and isinstance(n.value, ast.Call) and norm(n.value.func).endswith("_get_bipartite_representation") for e in n.targets[0].elts if isinstance(e, ast.Name)}
         sinks = []
         for n in walk_no_nested(gf.node):
             if isinstance(n, ast.Call) and ((isinstance(n.func, ast.Name) and n.func.id == "map") or (isinstance(n.func, ast.Attribute) and n.func.attr in ("map", "imap", "starmap"))) and len(n.args) >= 2 and norm(n.args[0]).endswith("_approximated_pvalue"):
